@@ -1082,7 +1082,18 @@ def run_movie_case(ctx, inp):
     if flstep_compare(ctx, res, inp, levels, log, store):
         return res
     # ---- 3. recovery / detect-then-link (sep regime only)
+    spurious = False
     if inp["regime"] == "sep":
+        # the recovery clause is asserted for well-separated blobs ONLY: a spurious feature (noise
+        # maximum that passes minmass) anywhere in the movie can legitimately take over a trajectory
+        # whose detection was withheld, so such movies are outside the regime
+        for t in range(nfr):
+            for p in list(levels[t][1]) + [list(q) for q in handed.get(levels[t][0], ())]:
+                if not any(abs(p[0] - b[0]) <= 2 and abs(p[1] - b[1]) <= 2 for b in inp["frames"][t]):
+                    spurious = True
+        if spurious:
+            res.stat("recovery_skipped_spurious_features")
+    if inp["regime"] == "sep" and not spurious:
         truth = inp["frames"]
         nb = len(truth[0])
         lab = []
